@@ -15,6 +15,9 @@
         msg  := undecodable | (start "<id>" <payload>)      payload := bad | (ok "<query>" <map> "<operationName>")
       → ignore | (close <code> "<text>") | (start "<id>" "<query>" <map> "<operationName>")
 
+    (url-get "<raw query>" "<name>")        → none | (s "<first value>")      -- net/url transliteration (UrlCodec.lean)
+    (url-encode ("<name>" "<value>") …)     → (raw "<name=value&…>")
+
     (serve-http <cfg> <http…as above, without the tag>)        cfg := (cfg <hook> <features> <cost>)  (booleans)
       → (status <code> "<message>") | (ok <core>)
     (serve-ws <cfg> <kind> <didInit> <msg>)
@@ -33,6 +36,7 @@
 import ApiFu.Common.Sexp
 import ApiFu.Common.Loop
 import ApiFu.C17.Model
+import ApiFu.C17.UrlCodec
 
 open ApiFu ApiFu.C17
 
@@ -154,8 +158,21 @@ def parseCfg : Sexp → Option (Api T T T T)
     pure (termApi h f c)
   | _ => none
 
+def parsePairs : List Sexp → Option (List (String × String))
+  | [] => some []
+  | Sexp.list [Sexp.atom k, Sexp.atom v] :: rest => (parsePairs rest).map ((k, v) :: ·)
+  | _ => none
+
 def handle (line : String) : String :=
   match Sexp.parse line with
+  | some (Sexp.list [Sexp.atom "url-get", Sexp.atom raw, Sexp.atom k]) =>
+    match Url.goUrlGet raw k with
+    | none => "none"
+    | some v => toString (Sexp.node "s" [Sexp.str v])
+  | some (Sexp.list (Sexp.atom "url-encode" :: pairs)) =>
+    match parsePairs pairs with
+    | none => "bad-op"
+    | some kvs => toString (Sexp.node "raw" [Sexp.str (Url.goUrlEncode kvs)])
   | some (Sexp.list (Sexp.atom "http" :: rest)) =>
     match parseHttp rest with
     | none => "bad-op"
